@@ -88,7 +88,7 @@ where
         let mut st = state.borrow_mut();
         let (ctx, first) = &mut *st;
         let res = std::panic::catch_unwind(std::panic::AssertUnwindSafe(|| f(ctx, &v))).unwrap_or_else(|p| {
-            Err(Fail::new("panic", format!("panic while executing a case: {}", panic_text(&p))))
+            Err(Fail::new(panic_key(), format!("panic while executing a case: {}", panic_text(&p))))
         });
         match res {
             Ok(()) => Ok(()),
@@ -122,7 +122,7 @@ where
             // re-run the minimal value to get its exact message
             ctx.counting = false;
             let rerun = std::panic::catch_unwind(std::panic::AssertUnwindSafe(|| f(ctx, &v))).unwrap_or_else(|p| {
-                Err(Fail::new("panic", format!("panic while executing a case: {}", panic_text(&p))))
+                Err(Fail::new(panic_key(), format!("panic while executing a case: {}", panic_text(&p))))
             });
             let fail = match rerun {
                 Err(fl) => fl,
@@ -148,6 +148,22 @@ pub fn panic_text(p: &Box<dyn std::any::Any + Send>) -> String {
 /// Run one case of an enumeration, turning a panic in the code under test into a failure.
 pub fn guard<T>(f: impl FnOnce() -> Result<T, Fail>) -> Result<T, Fail> {
     std::panic::catch_unwind(std::panic::AssertUnwindSafe(f)).unwrap_or_else(|p| {
-        Err(Fail::new("panic", format!("panic while executing a case: {}", panic_text(&p))))
+        Err(Fail::new(panic_key(), format!("panic while executing a case: {}", panic_text(&p))))
     })
+}
+
+static CODE_UNDER_TEST_IN_PROCESS: std::sync::atomic::AtomicBool = std::sync::atomic::AtomicBool::new(true);
+
+/// Engines that only talk to child processes call this with `false`: a panic inside a case is then
+/// a harness defect (inconclusive), not a finding about the code under test.
+pub fn set_code_under_test_in_process(b: bool) {
+    CODE_UNDER_TEST_IN_PROCESS.store(b, std::sync::atomic::Ordering::SeqCst);
+}
+
+pub fn panic_key() -> &'static str {
+    if CODE_UNDER_TEST_IN_PROCESS.load(std::sync::atomic::Ordering::SeqCst) {
+        "panic"
+    } else {
+        "HARNESS/panic"
+    }
 }
